@@ -30,7 +30,7 @@ def loc(k, id=0, i=0):
     return dict(k=k, id=id, i=i)
 
 
-def stmt(op, dst=None, src=None, v=0, d=0, flags=0, body=(), els=()):
+def stmt(op, dst=None, src=None, v=0, d=0, flags="ANY", body=(), els=()):
     return dict(op=op, dst=dst or loc("a", 1, 1), src=src or loc("a", 1, 1), v=M.word(v), k=v, d=d, flags=flags,
                 body=list(body), els=list(els))
 
@@ -155,7 +155,8 @@ def update_block(rng, names):
     out = set_key(rng, names, d)
     out += [member_value(rng, names, loc("val", d, i + 1)) for i in range(len(dd["value"]))]
     res = loc("a", rng.randint(1, NOUT), 1)
-    out.append(stmt("update", dst=res, d=d, flags=rng.choice([0, 0, 0, 1, 2])))
+    # the flag as the program names it (never its number: the numbering is the library's business)
+    out.append(stmt("update", dst=res, d=d, flags=rng.choice(["ANY", "ANY", "NOEXIST", "NOEXIST", "EXIST", "EXIST"])))
     return out
 
 
@@ -217,7 +218,7 @@ def emitter(names, stmts):
                     o, n = target(s["dst"], value)
                     setattr(o, n, get(s["src"], value) + s["k"])
                 elif s["op"] == "update":
-                    getattr(self, names.dicts[s["d"] - 1]["name"]).update(UpdateFlags(s["flags"]))
+                    getattr(self, names.dicts[s["d"] - 1]["name"]).update(getattr(UpdateFlags, s["flags"]))
                     o, n = target(s["dst"], value)
                     setattr(o, n, self.r0)
                 else:
@@ -335,9 +336,26 @@ def history(rng, backend, decl, nops, meta):
         for (n, _), x in zip(dd["key"], kv):
             setattr(k, n, x)
         kw = [M.word(x) for x in kv]
-        op = rng.choice(["set", "set", "get", "get", "pop", "pop_default", "del", "in", "iter", "items"])
+        op = rng.choice(["set", "set", "get", "get", "pop", "pop_default", "del", "in", "iter", "items",
+                         "set_noexist", "set_exist"])
         try:
-            if op == "set":
+            if op in ("set_noexist", "set_exist"):
+                # the map API with a named flag (ebpfcat.bpf.update_elem, as TheDict.__setitem__ uses it)
+                import ebpfcat.bpf as bpfmod
+                vv = [mapdecl.rand_value(rng, f) for _, f in dd["value"]]
+                v = V()
+                for (n, _), x in zip(dd["value"], vv):
+                    setattr(v, n, x)
+                flag = bpfmod.UpdateFlags.NOEXIST if op == "set_noexist" else bpfmod.UpdateFlags.EXIST
+                try:
+                    bpfmod.update_elem(t.fd, k.data, v.data, flag)
+                    res = "ok"
+                except IndexError:
+                    res = "IndexError"
+                except OSError as e:
+                    res = "refused" if e.errno in (2, 17) else M.exc_name(e)
+                ev.append(M.event("d_" + op, id=di + 1, k=kw, v=[M.word(x) for x in vv], res=res))
+            elif op == "set":
                 vv = [mapdecl.rand_value(rng, f) for _, f in dd["value"]]
                 v = V()
                 for (n, _), x in zip(dd["value"], vv):
@@ -618,8 +636,7 @@ def classify(ctx):
                ("constant assigned to a hash variable in a program (AttributeError)", pred_const_to_hash),
                ("hash variable read while r0 is in use (after a Dict operation): program refused", pred_hash_read_r0_refused),
                ("F3 fixed-point truncation", pred_f3),
-               ("F10 x-format hash variable", pred_x_hash),
-               ("hash variable read while r0 is in use: accepted program reads the Dict entry instead", pred_hash_read_r0)]
+               ("F10 x-format hash variable", pred_x_hash)]
     tally = {name: 0 for name, _ in classes}
     tally["not explained"] = 0
     shown = {}
